@@ -178,7 +178,8 @@ theorem c08_unifiedBundle_reach {h : Heap} (hr : Reach h) (c : Nat) (h' : Heap) 
       nb = h1.conts.size ∧ (h'.cont nb).records = news ∧
       news.length = (placeMerged mp (h.cont c).records).length ∧
       (∀ p ∈ (placeMerged mp (h.cont c).records).zip news, recEq (h1.recCell p.1).r (h'.recCell p.2).r = true) ∧
-      (∀ r, r < h1.recs.size → h'.recCell r = h1.recCell r) ∧ h1.recs.size ≤ h'.recs.size :=
+      (∀ r, r < h1.recs.size → h'.recCell r = h1.recCell r) ∧ h1.recs.size ≤ h'.recs.size ∧
+      unifiedRecords.mergeAll h [] (groupsOf h c) = (h1, .ok mp) :=
   c08_unifiedBundle_content h c (reach_good2 hr).good h' nb hres
 
 theorem reach_of_ops : ∀ (ops : List HOp) (h : Heap), Reach h → (∀ op ∈ ops, op.ok ∧ op.argsOk) →
